@@ -1,8 +1,9 @@
 PROP = dict(
     id="C10",
     lean_modules=["TongoProofs.C10", "TongoProofs.C09"],
-    gen=["LiteApi", "TlLength"],
-    # the model IS the specification for these: the TL rules applied to the schema text carried in the line
+    gen=["LiteApi", "TlLength", "TlBindings", "TlBindingsP1", "TlBindingsP2", "TlBindingsP3", "TlBindingsP4",
+         "TlBindingsP5", "TlBindingsP6", "TlBindingsP7", "TlBindingsP8", "TlBindingsAll"],
+    # the model IS the specification for these ops: the TL rules applied to the schema text carried in the line
     info_ops=("tl.crcid",),  # id spelled in the schema vs CRC-32 of the declaration text: outside C10 (the property speaks of the id given in the schema line); reported in the evidence only
     spec_ops=("tl.enc", "tl.dec", "tl.fenc", "tl.fdec", "tl.req", "tl.ans", "tl.reqdec", "tl.schema",
               "tl.hw."),
@@ -13,9 +14,21 @@ PROP = dict(
          "0/1..8/252..260, vectors 0..50, nested sums; plus byte strings of EVERY length 0..1100 (bytes and string "
          "carriers; around 2^16 and 2^24 in the thorough tier). non-trivial = distinct (declaration, value) pair",
     trusted_base=[
+        "translator X7 (harness/cmd/extract/tlbindings.go, go/ast): reads liteclient/generated.go and the tagged wrappers "
+        "of liteclient/extensions.go into the Lean value Gen.tlBindings; it matches every statement against the few "
+        "shapes the generator emits and FAILS on any other statement; what it reads as a step is what the theorems "
+        "speak about - a translator that misreads a statement shape in the same way for every method is not detected "
+        "by the theorems (it is by the correspondence ops, which execute every binding)",
+        "the step semantics Tl.Bind.marshalGo/unmarshalGo (lean/TongoModel/Tl/Bindings.lean): the builtin cases "
+        "(tl.Marshal/tl.Unmarshal on uint32, uint64, Int256, []byte, string, bool, slices, pointers - reflection "
+        "code of tl/encoder.go, tl/decoder.go) are hand-modelled, tied by the correspondence ops only",
+        "the specification itself: Tl.encode/Tl.decode (lean/TongoModel/Tl/Codec.lean) and the Lean-side schema "
+        "parser lean/TongoModel/Tl/Parser.lean used by the driver (its output on the raw file is compared with the "
+        "kernel-checked value Gen.liteApi through the canonical text: op tl.schema / liteapi_render)",
         "harness/tlmini (tokeniser + printer of the TL subset, reflection binding Go struct <-> value text by the "
         "generator's naming convention, reference encoder used only to produce inputs and for the go. oracles)",
-        "translator X3 (tokeniser -> compact Lean value, names as character codes); tied to the raw file twice: "
+        "translator X3 (tokeniser -> compact Lean value, names as character codes; and the same schema with string "
+        "literals, Gen.liteApiS, proved equal by the kernel: liteapi_literal); tied to the raw file twice: "
         "kernel-checked liteapi_render_c / liteapi_render (Lean value = canonical text) and run-time op tl.schema (the model's own parser on the raw file prints the "
         "same canonical text)",
         "CRC-32 / little-endian primitives of the model, validated against hash/crc32 on every run (prim.crc32)",
@@ -24,7 +37,14 @@ PROP = dict(
         "the ADNL packet framing/encryption under the request envelope is C11's subject; here the connection is a "
         "stub with the identity cipher (hook liteclient/export_verif.go) and the ADNL payload is compared",
         "decoding is modelled for well-formed input and for the dispatch errors (unknown id, liteServer.error, short "
-        "answer); totality/allocation on arbitrary malformed input is property C08",
+        "answer); totality/allocation on arbitrary malformed input is property C08; steps_eq_schema speaks about the "
+        "encodings of typed values only (UnmarshalTL on bytes that are no encoding: correspondence ops and C08)",
+        "a Go struct is represented as the list of its field values in declaration order, a nil pointer/absent slice as "
+        "`absent`, the sum struct by its SumType string and the fields of the selected variant (Bind.rep): fields of "
+        "the unselected variants and the aliasing of Go values are outside the model",
+        "hand models (one line each, NOT extracted): ton.AccountID, ton.BlockIDExt, tl.Int256 Marshal/Unmarshal "
+        "(handwritten_types_spec / handwritten_types_decode; tied by ops tl.hw.*); tlb.VmStack.MarshalTL has no theorem "
+        "(oracle go.tl.hw.vmstack only)",
     ],
     # ids of lite_api.tl that are NOT the CRC-32 of their declaration text (mirror of Tl.crcExceptions in
     # lean/TongoModel/Tl/LiteClient.lean; the first three are known findings, the last one is pinned upstream). They are
@@ -36,19 +56,40 @@ PROP = dict(
         "obligation liteapi_ids_crc32: table-driven CRC over character codes evaluated by the kernel, carried to the "
         "bitwise CRC by crc32T_eq_crc32N); for the exceptions the spelled id differs (info op tl.crcid, witness "
         "ctor_id_is_crc32_counterexample)",
+        "steps_eq_schema is one direction: every value the schema encodes is marshalled to those bytes and read back "
+        "from them (+ any trailing bytes). Not proved: that MarshalTL refuses what the schema refuses (Go types make "
+        "most of it unrepresentable; byte strings of 2^24 bytes and more: ops go.tl.toolong), and what UnmarshalTL does "
+        "on bytes that are not an encoding",
+        "liteServerRequest / the envelope: request_envelope is about the hand model `envelope` (tied by op tl.req "
+        "against the stub connection); X7 does not extract client.go",
         "X6 (generator output == checked-in generated.go / integers.go after gofmt) is an input-free comparison of two "
         "artefacts, evaluated by go.regen.*; no theorem",
+        "tl_spec_builtin / tl_spec_length_escape / tl_spec_composite and the encode conjuncts of tl_spec_padding (C09) "
+        "restate the definition of the specification in bytes; they say nothing about Go",
     ],
     level="proof",
-    level_text="theorems for all inputs: round trip / prefix-freeness / layout clauses of the TL schema semantics for "
-               "every well-formed schema (TongoProofs.C09, functional induction on the encoder), instantiated at the "
-               "regenerated schema of lite_api.tl (wf_liteapi by kernel evaluation), request envelope, request decoder "
-               "table, answer handling for EVERY function of the regenerated function table (liteapi_answer_decodes), "
-               "constructor ids = CRC-32 of the declaration text (ctor_id_is_crc32, regenerated kernel obligation), "
-               "hand-written codecs (TongoProofs.C10). Tie: every generated type, request "
-               "struct, client method (against a stub connection), answer path and the request decoder of the real Go "
-               "code is executed on schema-directed random values and compared with the model, which is the "
-               "specification for these ops; go.* oracles check round trip, self-delimitation and layout on the "
-               "implementation alone",
+    level_text="THEOREMS ABOUT THE GO BINDINGS (as extracted by translator X7, regenerated on every run): "
+               "steps_eq_schema (stated in TongoProofs.C09, generic) - proved once for every schema S and bindings value B accepted by the decidable "
+               "matcher agreeAll: for every type and every value the schema encodes, the MarshalTL step sequences "
+               "write exactly Tl.encode and the UnmarshalTL step sequences read it back leaving any trailing bytes; "
+               "instantiated at the current generated.go / lite_api.tl by 75 kernel-decided obligations (one per type "
+               "and per function: Gen.bind_type_i, Gen.bind_func_i -> Gen.bindings_agree), giving "
+               "liteapi_steps_eq_schema, liteapi_client_request (request-id literal + request struct = encodeRequest), "
+               "liteapi_client_answer (error literal tested first, result literal / sum switch), "
+               "liteapi_decoder_table (taggedRequestDecodeFunctions). A wrong mode bit, swapped fields, a wrong tag or "
+               "request id in ONE generated method breaks the obligation of that declaration (checked with seeds C10-3, "
+               "C10-5 and five own mutations). THEOREMS ABOUT THE SPECIFICATION: round trip / prefix-freeness of the TL "
+               "schema semantics for every well-formed schema (C09), instantiated at the regenerated schema (wf_liteapi "
+               "by kernel evaluation); request envelope; request decoder; answers for every function "
+               "(liteapi_answer_decodes); ids = CRC-32 of the declaration text (ctor_id_is_crc32, regenerated kernel "
+               "obligation). HAND MODELS: ton.AccountID / ton.BlockIDExt / tl.Int256 codecs, both directions. Of the 31 "
+               "theorems of TongoProofs.C10, 13 are closed facts about the regenerated schema / bindings (kernel "
+               "evaluated instances - they are the obligations that change with the repository), 2 "
+               "(handwritten_types_spec/_decode) are binder-free conjunctions of universally quantified clauses, 16 are "
+               "universally quantified. TESTED TIE (kept in full): every generated type, request struct, client method (against a stub "
+               "connection), answer path and the request decoder of the real Go code is executed on schema-directed "
+               "random values and compared with the specification; this also covers what X7 does not extract (reflection "
+               "helpers of package tl on builtin types, client.go); go.* oracles check round trip, self-delimitation and "
+               "layout on the implementation alone",
     line_timeout="180s",
 )
